@@ -42,7 +42,10 @@ type LockSpec struct {
 	// Variant hooks (local mutex guarding captured locals): when set they
 	// replace the field-based mutex / access classification and the
 	// function set.
-	MutexIs  func(recv ssa.Value) bool
+	// CustomLock maps callee names of a non-sync mutex type to their effect:
+	// 2 acquire, 1 acquire-read, -1 release, 3 try-acquire (bool result).
+	CustomLock map[string]int
+	MutexIs    func(recv ssa.Value) bool
 	AccessOf func(in ssa.Instruction) (name string, write bool, ok bool)
 	Funcs    []*ssa.Function
 }
@@ -96,6 +99,11 @@ func (sp *LockSpec) lockOp(in ssa.Instruction) int {
 				return 0
 			}
 		}
+		if sp.CustomLock != nil {
+			if k, ok := sp.CustomLock[calleeName(&x.Call)]; ok && k != 3 {
+				return k
+			}
+		}
 		switch calleeName(&x.Call) {
 		case "(*sync.Mutex).Lock", "(*sync.RWMutex).Lock":
 			return 2
@@ -131,10 +139,14 @@ func (sp *LockSpec) tryLockSucc(b *ssa.BasicBlock) int {
 			return false
 		}
 		n := calleeName(&call.Call)
-		if n != "(*sync.Mutex).TryLock" && n != "(*sync.RWMutex).TryLock" {
+		if n != "(*sync.Mutex).TryLock" && n != "(*sync.RWMutex).TryLock" && sp.CustomLock[n] != 3 {
 			return false
 		}
-		fa, ok := callRecv(&call.Call).(*ssa.FieldAddr)
+		recv := callRecv(&call.Call)
+		if sp.MutexIs != nil {
+			return sp.MutexIs(recv)
+		}
+		fa, ok := recv.(*ssa.FieldAddr)
 		return ok && fieldAddrName(fa) == sp.Mutex
 	}
 	switch True(isTry).polarity(iff.Cond) {
